@@ -376,6 +376,15 @@ def run(ctx):
             parts = (("prefix", codec.pre_events(lte, he), codec.pre_events(ltd, hd)),
                      ("item", codec.body_events(lte), codec.body_events(ltd)))
             for nm, ee, dd in parts:
+                if nm == "item":
+                    # a run of single bytes may be read/written one by one or in chunks: both are a raw byte run
+                    fe_ = [x for e_ in ee for x in flat(cs, e_.ty, "enc")]
+                    fd_ = [x for e_ in dd for x in flat(cs, e_.ty, "dec")]
+                    def _bytes(x):
+                        return len(x) == 1 and isinstance(x[0], str) and (x[0] == "u8" or x[0].startswith("raw"))
+                    if _bytes(fe_) and _bytes(fd_):
+                        ctx.held("codec:%s:%s" % (tag, nm), "%s: both sides treat the sequence as a run of bytes" % tag, rules.where(fd), fn=fd)
+                        continue
                 st, msg = cmp_seq(cs, ee, dd)
                 _rep(ctx, "codec:%s:%s" % (tag, nm), st, "%s: encoder and decoder agree on the %s of the length-prefixed sequence" % (tag, nm), msg, fd)
             continue
@@ -669,6 +678,105 @@ def no_discard(ctx, cs, closure):
                                 "so re-encoding a decoded message need not reproduce the received bytes" % (short_t(key), short_t(ev.ty)),
                              rules.where(fd, bb), fn=fd)
     ctx.floor("inj:reads", n, 40, "decoder reads checked for use")
+    # bytes read into a buffer must be looked at (or returned) before the buffer is refilled or dropped
+    nr = 0
+    for key in sorted(closure):
+        m = cs.impls[key]
+        if "dec" not in m:
+            continue
+        fd = m["dec"]
+        for bb, t, c in db.calls(fd):
+            ev = codec.call_event(fd, bb, t)
+            if ev is None or ev.kind != "dec" or ev.ty != "raw" or len(t[2]) < 2:
+                continue
+            nr += 1
+            k = "inj:%s:raw:%d" % (short_t(key), _ordinal(db, fd, bb))
+            r = _raw_read_used(db, fd, bb, t)
+            if r is None:
+                ctx.held(k, "the bytes %s::decode reads into its buffer are used before the buffer is refilled or dropped" % short_t(key), rules.where(fd, bb), fn=fd)
+            else:
+                ctx.violated(k, "%s::decode reads bytes into a buffer and %s without looking at them: different byte strings decode to the same value"
+                             % (short_t(key), r), rules.where(fd, bb), fn=fd)
+    ctx.floor("inj:raw-reads", nr, 3, "raw reads checked for use")
+
+
+REFILL = re.compile(r"io::Read::(read_exact|read|read_to_end|read_to_string)$|ops::index::(Index|IndexMut)::(index|index_mut)$|"
+                    r"ops::deref::(Deref|DerefMut)::(deref|deref_mut)$|::as_mut_slice$|::as_mut$|slice::.*::len$|::len$|Ord::min$|Ord::max$")
+
+
+def _raw_read_used(db, fn, rb, t):
+    """None if the buffer filled at block rb is genuinely used on every path before it is refilled / the function returns;
+    otherwise a short description of what happens to the bytes."""
+    from .. import flow as _flow
+    root = _flow.root_place(fn, t[2][1])
+    for _ in range(6):
+        if root is None:
+            return None
+        ds = graph(fn).defs().get(root[0], [])
+        if len(ds) == 1 and ds[0][0] == "call" and ds[0][2][2] and \
+                re.search(r"(IndexMut|Index)::(index_mut|index)$|DerefMut::deref_mut$|::as_mut_slice$|::as_mut$", ds[0][2][1].get("dn") or ds[0][2][1].get("n") or ""):
+            root = _flow.root_place(fn, ds[0][2][2][0])
+            continue
+        break
+    if root is None:
+        return None
+    L = root[0]
+    # locals derived from L (borrows, slices of it)
+    der = {L}
+    changed = True
+    while changed:
+        changed = False
+        for b in fn["blocks"]:
+            if b.get("c"):
+                continue
+            for s in b["s"]:
+                if s[0] == "=" and not s[1][1] and s[1][0] not in der:
+                    for pl in _rv_reads(s[2]):
+                        if pl[0] in der and (s[2][0] in ("ref", "raw", "use") or (s[2][0] == "cast" and "&" in fn["locals"][s[1][0]][0])):
+                            der.add(s[1][0])
+                            changed = True
+            tt = b["t"]
+            if tt[0] == "call" and tt[3][0] not in der and not tt[3][1] and (REFILL.search(tt[1].get("n") or "") or REFILL.search(tt[1].get("dn") or "")) and \
+                    any(a[0] in ("c", "m") and a[1][0] in der for a in tt[2]) and "&" in fn["locals"][tt[3][0]][0]:
+                der.add(tt[3][0])
+                changed = True
+    uses = set()
+    refills = set()
+    for i, b in enumerate(fn["blocks"]):
+        if b.get("c"):
+            continue
+        for s in b["s"]:
+            if s[0] != "=":
+                continue
+            reads = [pl for pl in _rv_reads(s[2]) if pl[0] in der]
+            if not reads:
+                continue
+            if s[2][0] in ("ref", "raw") or (s[2][0] in ("use", "cast") and s[1][0] in der and not s[1][1]):
+                continue        # just another borrow / alias
+            if s[2][0] == "discr" or s[2][0] in ("len", "ptrmeta"):
+                continue
+            uses.add(i)
+        tt = b["t"]
+        if tt[0] == "call" and any(a[0] in ("c", "m") and a[1][0] in der for a in tt[2]):
+            n = tt[1].get("n") or ""
+            dn = tt[1].get("dn") or ""
+            if re.search(r"io::Read::(read_exact|read|read_to_end|read_to_string)$", dn) or re.search(r"io::Read::(read_exact|read|read_to_end|read_to_string)$", n):
+                refills.add(i)
+            elif not REFILL.search(n) and not REFILL.search(dn) and not n.endswith("drop_in_place") and not n.endswith("mem::drop"):
+                uses.add(i)
+    g = graph(fn)
+    nxt = [tb for tb, lab in g.succ[rb]]
+    # error exits discard everything anyway: stop at `?` residual conversions and explicit `Err(..)` returns
+    errs = set(i for i, b in enumerate(fn["blocks"]) if not b.get("c") and b["t"][0] == "call" and
+               (b["t"][1].get("dn") or "").endswith("FromResidual::from_residual"))
+    errs |= set(bb for bb, j, k, ops in rules.agg_sites(fn, r"^core::result::Result$", "Err") if fn["blocks"][bb]["s"][j][1][0] == 0)
+    seen = g.reach(nxt, avoid_blocks=uses | errs)
+    if any(r in seen for r in refills):
+        return "refills the buffer"
+    if any(r in seen for r in rules.ret_blocks(fn)):
+        # a return is fine if the buffer itself is what is returned (moved into _0): that is a use and was excluded above
+        return "returns"
+    return None
 
 
 def _ordinal(db, fn, bb):
